@@ -2,14 +2,14 @@
 PROPERTY = "C10"
 META = {
     "category": "proof",
-    "technique": "contract-based deductive verification of _fuse_annotations (annotation dicts as records of optional keys, filtered comprehensions as index bijections, assumed models of toolz.merge/merge_with and set.intersection), z3; bounded stand-in (run-time postconditions) for HighLevelGraph.cull / Blockwise.cull / optimize_blockwise over a fixed family of blockwise layer stacks",
-    "text": "PROVED for every list of annotation dicts: fused retries and priority are the maximum over the layers that set them, resources the per-resource maximum, workers exactly the intersection, allow_other_workers the conjunction, and a key no layer sets stays unset (so no constraint is ever loosened). BOUNDED, not proved: (a) the same function run natively against the documented rules for all pairs (and triples of a subset) of 20 annotation dicts including falsy values; (b) for 6 stacks of blockwise layers (elementwise, transpose, broadcasting, new axes, contraction, concatenate) and several output-key subsets: culling keeps every needed key and the values, culling an already culled graph again does too, Blockwise.cull's dependencies equal those of the materialised tasks, optimize_blockwise leaves values unchanged (NumPy comparison).",
-    "note": "Trusted: VC generator, z3; ASSUMED models of toolz.merge (key present iff present in some input, value from an input), toolz.merge_with(max, ...) (per-key maximum) and set.intersection. Culling and fusion of blockwise layers are NOT proved: blockwise index-string algebra and NumPy block functions are outside the VC generator (bounded native runs only).",
+    "technique": "contract-based deductive verification of HighLevelGraph.cull (modular: checked against the contracts of Layer.cull, itself proved for the legacy-task branch, and of _toposort_layers) and of _fuse_annotations (annotation dicts as records of optional keys, filtered comprehensions as index bijections, assumed models of toolz.merge/merge_with and set.intersection), z3; bounded stand-in (run-time postconditions) for HighLevelGraph.cull / Blockwise.cull / optimize_blockwise over a fixed family of blockwise layer stacks",
+    "text": "PROVED for every valid high-level graph (each key in one layer; a key's dependencies live in its own layer or in a layer listed in `dependencies`) and every key set: HighLevelGraph.cull keeps only original tasks, keeps every requested key that the graph defines, and keeps everything a kept task needs (loop invariant over the dependents-first walk: needs of kept tasks are kept or still wanted in a layer not walked yet); Layer.cull (legacy-task branch) returns a part of the layer that contains the requested keys, is closed under dependencies inside the layer and reports exactly the dependencies of the kept tasks, without modifying its arguments. PROVED for every list of annotation dicts: fused retries and priority are the maximum over the layers that set them, resources the per-resource maximum, workers exactly the intersection, allow_other_workers the conjunction, and a key no layer sets stays unset (so no constraint is ever loosened). BOUNDED, not proved: (a) the same function run natively against the documented rules for all pairs (and triples of a subset) of 20 annotation dicts including falsy values; (b) for 6 stacks of blockwise layers (elementwise, transpose, broadcasting, new axes, contraction, concatenate) and several output-key subsets: culling keeps every needed key and the values, culling an already culled graph again does too, Blockwise.cull's dependencies equal those of the materialised tasks, optimize_blockwise leaves values unchanged (NumPy comparison).",
+    "note": "Trusted: VC generator, z3; ASSUMED models of toolz.merge (key present iff present in some input, value from an input), toolz.merge_with(max, ...) (per-key maximum) and set.intersection. ASSUMED for HighLevelGraph.cull: _toposort_layers returns every layer once with dependencies first; every layer class's cull satisfies the contract proved for Layer.cull; new layer names are distinct. That culling leaves VALUES unchanged follows from `kept tasks are the original tasks` + `everything needed is kept` (evaluation itself is C01). Blockwise.cull/_cull_dependencies and fusion of blockwise layers are NOT proved: blockwise index-string algebra and NumPy block functions are outside the VC generator (bounded native runs only).",
     "design_ref": "DESIGN.md §5.5",
 }
-MODULES = ["contracts.annotations"]
+MODULES = ["contracts.annotations", "contracts.hlg"]
 LEVEL = "proof"
-EXPLANATION = "annotation-fusion clause proved for all inputs; culling/fusion soundness by bounded run-time contract checks"
+EXPLANATION = "HighLevelGraph.cull / Layer.cull and the annotation-fusion clause proved for all inputs; Blockwise culling and fusion soundness by bounded run-time contract checks"
 TRUSTED = ["VC generator /verif/vf", "z3", "assumed models: toolz.merge, toolz.merge_with(max), set.intersection", "reference implementation of the documented annotation rules (native)", "NumPy as value oracle (native)"]
 ASSUMPTIONS = ["bounded universe of annotations and layer stacks"]
 
@@ -19,9 +19,13 @@ def native(tier, seed):
     return [hlg_native.annotations_sweep(tier, seed), hlg_native.cull_sweep(tier, seed)]
 
 
-NATIVE_COVERS = {"_fuse_annotations": ["_fuse_annotations"]}
+NATIVE_COVERS = {"_fuse_annotations": ["_fuse_annotations"], "HighLevelGraph.cull": ["HighLevelGraph.cull"], "Layer.cull[legacy tasks]": ["HighLevelGraph.cull"]}
 
 # thorough tier: deliberate edits that must turn an obligation red (applied to a scratch copy, never to /repo)
-MUTATIONS = [('contracts.annotations', '_fuse_annotations', 'dask/blockwise.py', '        annotations["retries"] = max(retries)', '        annotations["retries"] = retries[-1]'),
+MUTATIONS = [('contracts.hlg', 'HighLevelGraph.cull', 'dask/highlevelgraph.py', '                    keys_set |= d\n', '                    pass\n'),
+             ('contracts.hlg', 'HighLevelGraph.cull', 'dask/highlevelgraph.py', '        for layer_name in reversed(self._toposort_layers()):', '        for layer_name in self._toposort_layers():'),
+             ('contracts.hlg', 'Layer.cull[legacy tasks]', 'dask/highlevelgraph.py', '                            seen.add(d)\n                            work.add(d)', '                            seen.add(d)'),
+             ('contracts.hlg', 'Layer.cull[legacy tasks]', 'dask/highlevelgraph.py', '            work = keys.copy()', '            work = keys'),
+             ('contracts.annotations', '_fuse_annotations', 'dask/blockwise.py', '        annotations["retries"] = max(retries)', '        annotations["retries"] = retries[-1]'),
              ('contracts.annotations', '_fuse_annotations', 'dask/blockwise.py', '        annotations["allow_other_workers"] = all(allow_other_workers)', '        annotations["allow_other_workers"] = any(allow_other_workers)'),
              ('contracts.annotations', '_fuse_annotations', 'dask/blockwise.py', '    workers = [a["workers"] for a in args if "workers" in a]', '    workers = [a["workers"] for a in args if a.get("workers")]')]
